@@ -520,6 +520,12 @@ class Inliner:
                 stmts[i:i + 1] = replaced
                 i += len(replaced)
                 continue
+            # `for T in gen(...): BODY` over an unknown generator helper of the simple producer form
+            if isinstance(st, ast.For) and not st.orelse and isinstance(st.iter, ast.Call):
+                rep_ = self._expand_generator_loop(st, fn, fq, cls)
+                if rep_ is not None:
+                    stmts[i:i + 1] = rep_
+                    continue
             # expression-position calls to single-expression helpers
             self._expr_calls(st, fn, fq, cls)
             # a call to a multi-statement helper that is evaluated first inside a simple statement is hoisted:
@@ -552,6 +558,86 @@ class Inliner:
             for h in getattr(st, "handlers", []) or []:
                 self._block(h.body, fn, fq, cls)
             i += 1
+
+    def _expand_generator_loop(self, loop: ast.For, fn, fq, cls) -> Optional[List[ast.stmt]]:
+        """`for T in g(a): BODY` where g is `<pre>; while/for …: …; yield E` (the yield is the last statement of g's
+        only loop, `return` only directly inside that loop, nothing after the loop) becomes g's loop with
+        `yield E` replaced by `T = E; BODY` and `return` by `break`.  BODY's own break/continue keep their meaning
+        because the yield is in tail position of the producer loop."""
+        hit = self._callee(loop.iter, cls, fn, fq)
+        if hit is None or hit[0] is fn:
+            return None
+        callee, cfq, recv = hit
+        decos = {ast.unparse(d) for d in callee.decorator_list}
+        if decos - {"staticmethod", "classmethod"} or callee.args.vararg or callee.args.kwarg:
+            return None
+        body = _body_wo_doc(callee)
+        if not body or not isinstance(body[-1], (ast.While, ast.For)) or body[-1].orelse:
+            return None
+        gl = body[-1]
+        if any(_has(s_, (ast.Yield, ast.YieldFrom, ast.Return)) for s_ in body[:-1]) or _has(callee, (ast.YieldFrom, ast.Await, ast.Global, ast.Nonlocal, ast.Try, ast.With)):
+            return None
+        last = gl.body[-1] if gl.body else None
+        if not (isinstance(last, ast.Expr) and isinstance(last.value, ast.Yield) and last.value.value is not None):
+            return None
+        if any(_has(s_, ast.Yield) for s_ in gl.body[:-1]) or not _returns_at_loop_depth(gl):
+            return None
+        for r_ in _walk_no_defs(gl):
+            if isinstance(r_, ast.Return) and r_.value is not None:
+                return None
+        try:
+            mapping = self._bind(callee, loop.iter, recv, fn)
+        except NotInlinable:
+            return None
+        assigned = _assigned(callee)
+        caller_names = _names(fn)
+        self._k += 1
+        pre: List[ast.stmt] = []
+        subst: Dict[str, ast.expr] = {}
+        rename: Dict[str, str] = {}
+        target_names = {n.id for n in ast.walk(loop.target) if isinstance(n, ast.Name)}
+        for p_, a in mapping.items():
+            if p_ in assigned or not _simple(a):
+                nm = p_ if p_ not in caller_names else "%s__h%d" % (p_, self._k)
+                pre.append(ast.Assign(targets=[ast.Name(id=nm, ctx=ast.Store())], value=copy.deepcopy(a)))
+                if nm != p_:
+                    rename[p_] = nm
+            else:
+                subst[p_] = a
+        for loc in assigned:
+            if loc not in mapping and loc in caller_names and loc not in target_names:
+                rename[loc] = "%s__h%d" % (loc, self._k)
+        gbody = copy.deepcopy(body)
+        gl2 = gbody[-1]
+        y = gl2.body[-1].value.value
+        tgt = copy.deepcopy(loop.target)
+        same = ast.dump(tgt).replace("Store()", "Load()") == ast.dump(y)
+        consumer = ([] if same else [ast.Assign(targets=[tgt], value=y)]) + loop.body
+
+        class R2B(_RetToBreak):
+            pass
+        tr = R2B(lambda r: [])
+        new_body = []
+        for s_ in gl2.body[:-1]:
+            r = tr.visit(s_)
+            new_body.extend(r if isinstance(r, list) else [r])
+        tr2 = _Subst(subst, rename)
+        new_body = [tr2.visit(s_) for s_ in new_body]
+        head = [tr2.visit(s_) for s_ in gbody[:-1]]
+        # the consumer body belongs to the caller: no renaming there, except the yielded expression
+        if not same:
+            consumer[0] = ast.Assign(targets=[tgt], value=tr2.visit(copy.deepcopy(y)))
+        if isinstance(gl2, ast.While):
+            new_loop = ast.While(test=tr2.visit(gl2.test), body=new_body + consumer, orelse=[])
+        else:
+            new_loop = ast.For(target=tr2.visit(gl2.target), iter=tr2.visit(gl2.iter), body=new_body + consumer, orelse=[], type_comment=None)
+        out = pre + head + [new_loop]
+        for s_ in out:
+            ast.copy_location(s_, loop)
+            ast.fix_missing_locations(s_)
+        self.inlined.add(cfq)
+        self.count += 1
+        return out
 
     def _first_evaluated_helper_call(self, e: ast.expr, fn, fq, cls):
         """The call to an inlinable unknown helper that is evaluated before anything with an effect in `e`
